@@ -55,7 +55,7 @@ class Prop(BaseProp):
                    "whitespace-separated strings as sequences)", "the logging section is outside the property",
                    "HOME and XDG_CONFIG_DIRS point into the sandbox so no real user file interferes"]
     HEADLINE = ["settings_captured", "options_compared", "subset_cases", "random_stacks", "relative_dir_cases",
-                "wrong_type_cases", "wrong_type_rejected"]
+                "wrong_type_cases", "wrong_type_rejected", "multi_input_invocations"]
 
     NRAND = {"quick": 3000, "thorough": 50000}
     NREL = {"quick": 600, "thorough": 6000}
@@ -73,6 +73,32 @@ class Prop(BaseProp):
         if d is None and opt == "exclude_filters":
             return []
         return d
+
+    def invoke_multi(self, sb, cli, sfile, user, cwd, inputs):
+        """Like invoke(), but with real inputs and the real document() called through: the Settings object of every call
+        is captured on entry."""
+        home = os.path.join(sb, "home")
+        os.makedirs(home, exist_ok=True)
+        argv = list(inputs)
+        if user is not None:
+            fsrun.write_yaml(os.path.join(home, ".config", "cminx", "config.yaml"), user)
+        if sfile is not None:
+            p = os.path.join(sb, "cfgdir", "s.yaml")
+            fsrun.write_yaml(p, sfile)
+            argv += ["-s", p]
+        argv += cli
+        captured = []
+        real = self.m.document
+
+        def wrapper(input_file, settings):
+            captured.append((input_file, copy.deepcopy(settings)))
+            return real(input_file, settings)
+        self.m.document = wrapper
+        try:
+            o = runner.run_main(argv, cwd=cwd, home=home)
+        finally:
+            self.m.document = real
+        return o, captured, argv
 
     def invoke(self, sb, cli, sfile, user, cwd):
         """Writes the sources, calls the real main with `document` wrapped. -> (outcome, captured list)"""
@@ -215,6 +241,42 @@ class Prop(BaseProp):
                 self.compare_all(res, cap[0][1], expected, wit, "stack")
                 return res
             j -= self.NRAND[self.tier]
+            if j < self.NREL[self.tier] and j % 5 == 4:
+                # several inputs in one invocation: the settings handed over for the 2nd, 3rd ... input are the same layered ones
+                ins = []
+                for nm in ("alpha", "beta"):
+                    d = os.path.join(sb, "inputs", nm)
+                    os.makedirs(d)
+                    with open(os.path.join(d, nm[0] + "_file.cmake"), "w") as f:
+                        f.write("function(f)\nendfunction()\n")
+                    ins.append(d)
+                lone = os.path.join(sb, "inputs", "lone.cmake")
+                with open(lone, "w") as f:
+                    f.write("function(g)\nendfunction()\n")
+                ins.append(lone)
+                rng.shuffle(ins)
+                psrc = rng.choice([None, None, "cli", "sfile"])
+                assigns = [("output", "directory", {"cli": os.path.join(sb, "multi_out")})]
+                expected = {("output", "directory"): os.path.join(sb, "multi_out")}
+                if psrc:
+                    assigns.append(("rst", "prefix", {psrc: "PFX"}))
+                    expected[("rst", "prefix")] = "PFX"
+                if rng.random() < 0.5:
+                    assigns.append(("input", "exclude_filters", {"cli": ["nomatch_*"]}))
+                    expected[("input", "exclude_filters")] = ["nomatch_*"]
+                cli, sfile, user = self.build_sources(assigns)
+                o, cap, argv = self.invoke_multi(sb, cli, sfile, user, cwd, ins)
+                wit = {"argv": argv, "inputs": ins}
+                res.count("multi_input_invocations")
+                res.sig = sig_hash(["multi", [os.path.basename(x) for x in ins], psrc])
+                res.nontrivial = True
+                if not o.ok or len(cap) != len(ins):
+                    res.violate(f"main-failed:{o.crash_class() or o.exit_code}", f"{len(cap)} document() calls; {str(o.exc)[:200]}", wit)
+                    return res
+                for n_, (inp_, st) in enumerate(cap):
+                    res.count("settings_captured")
+                    self.compare_all(res, st, expected, dict(wit, call=n_, input=inp_), f"input-{min(n_, 1) and 'later' or 'first'}")
+                return res
             if j < self.NREL[self.tier]:
                 # relative output directory from one source, relative_to_config from any source (or unset), some cwd
                 dsrc = rng.choice(SOURCES)
